@@ -179,7 +179,7 @@ func (x *Executor) tag(prefix string) string {
 
 // SetSources makes dir hold exactly the variant's files plus whatever *.gen.go
 // is already there (the user edits sources; generated files stay).
-func SetSources(dir string, v *Variant) error {
+func SetSources(dir string, v *Variant, known ...map[string]bool) error {
 	if err := os.MkdirAll(dir, 0o755); err != nil {
 		return err
 	}
@@ -187,13 +187,21 @@ func SetSources(dir string, v *Variant) error {
 	if err != nil {
 		return err
 	}
+	// A user who switches to another version of the sources removes the source
+	// files that version no longer has - and nothing else: files the generator
+	// itself left behind (a lock file, a temporary file, *.gen.go) stay.
 	for _, e := range ents {
 		n := e.Name()
 		if isGen(n) {
 			continue
 		}
-		if _, keep := v.Files[n]; !keep {
-			os.RemoveAll(filepath.Join(dir, n))
+		if _, keep := v.Files[n]; keep {
+			continue
+		}
+		for _, k := range known {
+			if k[n] {
+				os.RemoveAll(filepath.Join(dir, n))
+			}
 		}
 	}
 	// Like a user editing sources: only files whose content differs are
